@@ -1019,6 +1019,9 @@ class TorControlProtocol(LineOnlyReceiver):
 
     def _accumulate_multi_response(self, line):
         "for FSM"
+        # undo the dot-stuffing Tor applies to data lines starting with '.'
+        if line.startswith('..'):
+            line = line[1:]
         if self._line_callback() is not None:
             self.command[2](line)
 
